@@ -1566,11 +1566,12 @@ package main
 //@   assert("[C12] the-number-written-into-the-source-is-the-magic-value-in-decimal", v == uint64(magicValue) && b == 10)
 //@ end
 
-// The outer function stays trusted: ast.Inspect is modelled as a pure call, so the flag its callback
-// sets cannot be followed; the callback itself (below) is under contract.
 //@ func updateEntryOffset
-//@   trusted finds funcInfo.entry and walks it with the callback below; panics unless the callback fired
+//@   property C12
+//@   skip safety call-requires
+//@   may_panic when true
 //@   assigns *
+//@   ensures @entry-offset-decryption-is-injected-or-the-build-stops: entryOffUpdated
 //@ end
 
 //@ func updateEntryOffset#updateEntryOff
